@@ -2,6 +2,7 @@ CONSTANTS
  NF = 7
  MaxOps = 14
  MaxComps = 3
+ VarKinds = {"", "var", "bare"}
  EmitFrom = 14
 INIT Init
 NEXT Next
